@@ -349,7 +349,7 @@ class FitEngine(Engine):
                           "delegates, raises RuntimeError, or returns another legal optimum"]
 
     def budget(self, tier):
-        return 220 if tier == "quick" else 6000
+        return 220 if tier == "quick" else 4000
 
     def timeout(self, tier):
         return 300
